@@ -331,6 +331,31 @@ Theorem C06_absent_notfound_file : forall fx ig ov h g,
 Proof. exact file_absent_notfound. Qed.
 Print Assumptions C06_absent_notfound_file.
 
+(* Predecessors of the file store, for every history (titled successors / restoreDuplicates,
+   IgnoreNoName, DisableOverwrite included; the aliasing name excluded; B = the bytes a digest
+   stands for): exactly the indexed nodes whose bytes list the node as a successor ... *)
+Theorem C06_predecessors_exact_file : forall (B : N -> blob) ig ov h n k,
+  Forall no_alias h -> Forall (wfB_op B) h ->
+  let s := fst (runf (file_step true ig ov) file_init h) in
+  In k (map gk (g_predecessors n (f_graph s))) <->
+  In k (map fst (g_nodes (f_graph s))) /\ In (gk n) (succ_of k (B (k_dig k))).
+Proof. exact file_preds_exact. Qed.
+Print Assumptions C06_predecessors_exact_file.
+
+(* ... and every Push that succeeded (not discarded by IgnoreNoName) is indexed for ever *)
+Theorem C06_push_ok_indexed_file : forall fx ig ov s d c h2,
+  (ig = false \/ d_name d <> 0) ->
+  snd (file_step fx ig ov s (Push d c)) = FO OOk ->
+  indexed (gk d) (fst (runf (file_step fx ig ov) (fst (file_step fx ig ov s (Push d c))) h2)).
+Proof. exact file_push_ok_indexed. Qed.
+Print Assumptions C06_push_ok_indexed_file.
+
+Example C06_ex_file_graph_wf : Forall (wfB_op fg_B) fg_hist /\ Forall no_alias fg_hist.
+Proof. exact fg_wf. Qed.
+Example C06_ex_file_graph_run :
+  snd (runf (file_step true false false) file_init fg_hist) = [FO OOk; FO OOk; FO (OPreds [(1, 9, 20)])].
+Proof. exact fg_run. Qed.
+
 (* Resolve returns the descriptor most recently tagged *)
 Theorem C06_resolve_latest_file : forall fx ig ov s d r h2,
   r <> REmpty ->
